@@ -25,7 +25,7 @@ vars == <<l, acc>>
 Orig(ev) == IF ev.mode = "replace" THEN Caps[ev.ckey] ELSE ev.orig
 \* the harness started from the bytes it says it did, and produced exactly the bytes the chosen splices give
 Bound(ev, o, m) == /\ ev.applied /\ ev.fit /\ SplicesFit(o, ev.sp)
-                   /\ Len(o) = ev.orig_len /\ Digest(o) = ev.orig_sum
+                   /\ Len(o) = ev.orig_len
                    /\ Len(m) = ev.mut_len /\ Digest(m) = ev.mut_sum
 
 \* ---------------------------------------------------------------- C33 / C34
